@@ -447,10 +447,171 @@ fn gen_tearing(_t: Tier) -> Box<dyn Iterator<Item = Vec<u64>>> {
     Box::new((0..3u64).flat_map(|w| (0..2u64).flat_map(move |d| (0..4u64).map(move |o| vec![w, d, o]))))
 }
 
+/// Store-buffering litmus test for the requested ordering: two threads, two locations; each
+/// stores 1 to its own location and then loads the other one, both with SeqCst, through the
+/// library. Under sequential consistency at least one of them sees the other's store; "both read
+/// 0" is only possible if a SeqCst store was carried out as something weaker. Fixed number of
+/// rounds; a correct implementation can never produce the forbidden outcome.
+fn run_litmus(t: &mut Tape, cx: &mut Cx) -> Result<(), String> {
+    use std::sync::atomic::AtomicUsize;
+    let level = t.below(4) as usize; // 0 slice 1 region 2 guest memory 3 references from get_atomic_ref
+    let ty = t.below(4) as usize; // u8 u16 u32 u64
+    let rounds: usize = if cx.tier == Tier::Quick { 40_000 } else { 4_000_000 };
+    note!(cx, "store buffering, SeqCst {} store then load at {} level, {} rounds", ATOM_NAMES[ty], ["slice", "region", "guest-memory", "atomic-reference"][level], rounds);
+    cx.nt("ordering_litmus");
+    let mem = build_mmap(&Layout { regs: vec![(0x1000, 4096)] })?;
+    let region = mem.iter().next().unwrap();
+    let host = region.as_ptr() as usize;
+    let offs = [64usize, 1024];
+    let go = AtomicUsize::new(0);
+    let done = AtomicUsize::new(0);
+    let seen = [AtomicUsize::new(0), AtomicUsize::new(0)];
+    let stop = AtomicBool::new(false);
+    let one = [1u8, 0, 0, 0, 0, 0, 0, 0];
+    let mut forbidden: Option<usize> = None;
+    std::thread::scope(|sc| {
+        for me in 0..2usize {
+            let (go, done, seen, stop, mem) = (&go, &done, &seen, &stop, &mem);
+            sc.spawn(move || {
+                let region = mem.iter().next().unwrap();
+                let (mine, other) = (offs[me], offs[1 - me]);
+                // SAFETY: inside the live mapping.
+                let vs = unsafe { VolatileSlice::new(host as *mut u8, 4096) };
+                let mut i = 1usize;
+                loop {
+                    while go.load(Ordering::Acquire) < i {
+                        if stop.load(Ordering::Relaxed) {
+                            return;
+                        }
+                        std::hint::spin_loop();
+                    }
+                    let got = match level {
+                        0 => {
+                            store_sel(&vs, ty, &one, mine, Ordering::SeqCst).expect("store");
+                            load_sel(&vs, ty, other, Ordering::SeqCst).expect("load")[0]
+                        }
+                        1 => {
+                            store_sel(region, ty, &one, MemoryRegionAddress(mine as u64), Ordering::SeqCst).expect("store");
+                            load_sel(region, ty, MemoryRegionAddress(other as u64), Ordering::SeqCst).expect("load")[0]
+                        }
+                        2 => {
+                            store_sel(mem, ty, &one, GuestAddress(0x1000 + mine as u64), Ordering::SeqCst).expect("store");
+                            load_sel(mem, ty, GuestAddress(0x1000 + other as u64), Ordering::SeqCst).expect("load")[0]
+                        }
+                        _ => {
+                            use vm_memory::AtomicInteger;
+                            let a = vs.get_atomic_ref::<std::sync::atomic::AtomicU64>(mine).expect("ref");
+                            let b = vs.get_atomic_ref::<std::sync::atomic::AtomicU64>(other).expect("ref");
+                            AtomicInteger::store(a, 1, Ordering::SeqCst);
+                            AtomicInteger::load(b, Ordering::SeqCst) as u8
+                        }
+                    };
+                    seen[me].store(got as usize, Ordering::Relaxed);
+                    done.fetch_add(1, Ordering::Release);
+                    i += 1;
+                }
+            });
+        }
+        for i in 1..=rounds {
+            // SAFETY: naturally aligned locations inside the live mapping; both threads are parked.
+            unsafe {
+                (*((host + offs[0]) as *const std::sync::atomic::AtomicU64)).store(0, Ordering::SeqCst);
+                (*((host + offs[1]) as *const std::sync::atomic::AtomicU64)).store(0, Ordering::SeqCst);
+            }
+            go.store(i, Ordering::Release);
+            while done.load(Ordering::Acquire) < 2 * i {
+                std::hint::spin_loop();
+            }
+            if seen[0].load(Ordering::Relaxed) == 0 && seen[1].load(Ordering::Relaxed) == 0 {
+                forbidden = Some(i);
+                break;
+            }
+        }
+        stop.store(true, Ordering::SeqCst);
+    });
+    if let Some(i) = forbidden {
+        return Err(format!("round {}: both threads stored 1 to their own location and then read 0 from the other one, with SeqCst requested for all four {} accesses ({} level): the requested ordering was not applied", i, ATOM_NAMES[ty], ["slice", "region", "guest-memory", "atomic-reference"][level]));
+    }
+    Ok(())
+}
+
+fn gen_litmus(_t: Tier) -> Box<dyn Iterator<Item = Vec<u64>>> {
+    Box::new((0..4u64).flat_map(|l| (0..4u64).map(move |ty| vec![l, ty])))
+}
+
+/// xen build: the atomic load/store API over emulated regions; for grant regions mapped on
+/// demand there is no host pointer and alignment is judged on the offset.
+#[cfg(feature = "xen")]
+fn run_xen_atomic(t: &mut Tape, cx: &mut Cx) -> Result<(), String> {
+    use crate::xen_emul::{build as xbuild, live, reset, Kind as XKind};
+    reset();
+    let kind = [XKind::GrantOnDemand, XKind::GrantAdvance, XKind::Foreign, XKind::UnixFile, XKind::UnixAnon][t.below(5) as usize];
+    let ty = t.below(NATOM as u64) as usize;
+    let sz = ATOM_SIZES[ty];
+    let k = t.below(32) as usize;
+    let off = if k < 16 { k } else { 4088 + (k - 16) };
+    let level = t.below(3);
+    let base = 0x3000u64;
+    let size = 8192usize;
+    let xr = xbuild::<()>(kind, base, size)?;
+    let init: Vec<u8> = (0..size).map(|i| (i as u8).wrapping_mul(11).wrapping_add(5)).collect();
+    xr.raw_write(&init);
+    let regs = vec![std::sync::Arc::new(xr.region)];
+    let mem = vm_memory::GuestMemoryMmap::from_arc_regions(regs).map_err(|e| format!("{:?}", e))?;
+    let region = mem.iter().next().unwrap();
+    let aligned = off % sz == 0;
+    let val = [0xC3u8, 0x5A, 0x11, 0x7E, 0x99, 0x02, 0xF0, 0x6B];
+    let what = format!("atomic {} at offset {:#x} of a {:?} region, level {}", ATOM_NAMES[ty], off, kind, ["slice", "region", "guest-memory"][level as usize]);
+    note!(cx, "{}", what);
+    cx.nt("xen_atomic_api_class");
+    let raw = |f: &Option<(std::fs::File, u64)>| -> Vec<u8> {
+        match f {
+            Some((f, o)) => pread_all(f, *o, size),
+            // SAFETY: unix mapping of `size` bytes.
+            None => (0..size).map(|i| unsafe { region.as_ptr().add(i).read_volatile() }).collect(),
+        }
+    };
+    let order_s = STORE_ORDERS[t.idx(3)];
+    let order_l = LOAD_ORDERS[t.idx(3)];
+    let (rs, rl) = match level {
+        0 => {
+            let vs = region.as_volatile_slice().map_err(|e| format!("{:?}", e))?;
+            (store_sel(&vs, ty, &val, off, order_s).map_err(|e| format!("{:?}", e)), load_sel(&vs, ty, off, order_l).map_err(|e| format!("{:?}", e)))
+        }
+        1 => (store_sel(region, ty, &val, MemoryRegionAddress(off as u64), order_s).map_err(|e| format!("{:?}", e)), load_sel(region, ty, MemoryRegionAddress(off as u64), order_l).map_err(|e| format!("{:?}", e))),
+        _ => (store_sel(&mem, ty, &val, GuestAddress(base + off as u64), order_s).map_err(|e| format!("{:?}", e)), load_sel(&mem, ty, GuestAddress(base + off as u64), order_l).map_err(|e| format!("{:?}", e))),
+    };
+    let now = raw(&xr.file);
+    if aligned {
+        rs.map_err(|e| format!("{}: aligned store refused: {}", what, e))?;
+        let got = rl.map_err(|e| format!("{}: aligned load refused: {}", what, e))?;
+        ensure!(got[..] == val[..sz], "{}: loaded {:x?}, stored {:x?}", what, got, &val[..sz]);
+        let mut want = init.clone();
+        want[off..off + sz].copy_from_slice(&val[..sz]);
+        ensure!(now == want, "{}: the device does not hold exactly the stored value at that offset", what);
+    } else {
+        cx.nt("misaligned_refused");
+        ensure!(rs.is_err(), "{}: a store at a misaligned offset was not refused", what);
+        ensure!(rl.is_err(), "{}: a load at a misaligned offset was not refused", what);
+        ensure!(now == init, "{}: a refused access modified memory", what);
+    }
+    ensure!(live().len() <= 1, "{}: temporary windows remain: {:x?}", what, live());
+    Ok(())
+}
+
+#[cfg(not(feature = "xen"))]
+fn run_xen_atomic(_t: &mut Tape, _cx: &mut Cx) -> Result<(), String> {
+    Ok(())
+}
+
+fn gen_xen_atomic(_t: Tier) -> Box<dyn Iterator<Item = Vec<u64>>> {
+    Box::new((0..5u64).flat_map(|k| (0..NATOM as u64).flat_map(move |ty| (0..32u64).flat_map(move |o| (0..3u64).map(move |l| vec![k, ty, o, l, (k + ty + o) % 3, (ty + o + l) % 3])))))
+}
+
 pub fn property() -> Property {
     Property {
         id: "C06",
-        rule: "complete enumeration of (entry point x length 0..=24 x guest address mod 8 x local address mod 8) for 35 entry points that funnel into the byte-copy helper (buffer reads/writes at slice, region and guest level, 1-byte-element copies, in-memory stream adapters incl. nearly full Vec sinks through the write_all paths, object reads/writes of 1/2/4/8 bytes), region/guest-level entries additionally at the last possible position inside the region; oracle = trace of the primitive accesses the library requests (hook): length in {1,2,4,8} with both addresses aligned to it => exactly one access of that width; plus the atomic load/store API for every AtomicAccess type x offset mod 16 x level (misaligned refused, aligned round trip), random offsets, and a threaded tearing detector with a fixed iteration count; non-trivial = aligned power-of-two transfer (the rule bites), atomic API class, tearing run; distinct = (entry, len, guest mod 8, local mod 8)",
+        rule: "complete enumeration of (entry point x length 0..=24 x guest address mod 8 x local address mod 8) for 35 entry points that funnel into the byte-copy helper (buffer reads/writes at slice, region and guest level, 1-byte-element copies, in-memory stream adapters incl. nearly full Vec sinks through the write_all paths, object reads/writes of 1/2/4/8 bytes), region/guest-level entries additionally at the last possible position inside the region; oracle = trace of the primitive accesses the library requests (hook): length in {1,2,4,8} with both addresses aligned to it => exactly one access of that width; plus the atomic load/store API for every AtomicAccess type x offset mod 16 x level (misaligned refused, aligned round trip), random offsets, a threaded tearing detector and a store-buffering litmus test (SeqCst requested at slice / region / guest / atomic-reference level) with fixed iteration counts; xen build: the atomic API for every type x offset (0..15 and around a page boundary) x level over emulated regions of every kind, judged through the device file; non-trivial = aligned power-of-two transfer (the rule bites), atomic API class, tearing run; distinct = (entry, len, guest mod 8, local mod 8)",
         assumptions: &["a naturally aligned volatile load/store of <= 8 bytes is a single machine access on the supported 64-bit targets", "the hook observes the accesses the library requests; a change inside one copy_single arm is visible only to the tearing detector", "guest regions start at multiples of 8 so guest and host alignment coincide"],
         subchecks: vec![
             SubCheck { name: "classes", builds: &[Build::Std, Build::Plain], kind: Kind::Exhaustive { gen: gen_classes }, run: run_class },
@@ -458,6 +619,8 @@ pub fn property() -> Property {
             SubCheck { name: "atomic_junction", builds: &[Build::Std, Build::Plain], kind: Kind::Exhaustive { gen: gen_junction }, run: run_atomic_junction },
             SubCheck { name: "tearing", builds: &[Build::Plain], kind: Kind::Exhaustive { gen: gen_tearing }, run: run_tearing },
             SubCheck { name: "random", builds: &[Build::Std], kind: Kind::Random { quick: 60_000, thorough: 3_000_000, max_words: 8 }, run: run_random },
+            SubCheck { name: "ordering_litmus", builds: &[Build::Std, Build::Plain], kind: Kind::Exhaustive { gen: gen_litmus }, run: run_litmus },
+            SubCheck { name: "xen_atomic_api", builds: &[Build::Xen], kind: Kind::Exhaustive { gen: gen_xen_atomic }, run: run_xen_atomic },
         ],
     }
 }
